@@ -453,11 +453,18 @@ class RandomUDSServer(UDSServer):
 
             self.services[session] = {}
 
-            for supported_service in self.randomness_parameters.mandatory_services + [
+            supported_services = self.randomness_parameters.mandatory_services + [
                 s
                 for s in self.randomness_parameters.optional_services
                 if rng.random() < self.randomness_parameters.p_service
-            ]:
+            ]
+
+            # The session transitions generated above can only be taken via DiagnosticSessionControl.
+            # Without it, offered sessions would be unreachable or could not return to the default session.
+            if UDSIsoServices.DiagnosticSessionControl not in supported_services:
+                supported_services.append(UDSIsoServices.DiagnosticSessionControl)
+
+            for supported_service in supported_services:
                 supported_sub_functions: list[int] | None = None
 
                 if self._is_sub_function_service(supported_service):
